@@ -209,9 +209,8 @@ def time_literals(acc, hs):
 OFFSETS = []
 for _h in range(-12, 13):
     for _m in (0, 30):
-        if abs(_h) == 12 and _m:
-            continue
         OFFSETS.append((_h, _m))
+OFFSETS += [(12, 45), (-12, 45), (5, 45), (-0, 45)]     # hours -12..+12, minutes 0..59
 
 
 def offset_spellings(hh, mm):
